@@ -84,6 +84,10 @@ def destroy_then_fail_rule(prog, rep, only_files=None):
                         r = root_var(norm(e.kid(1)))
                         if r is not None and r[2] in pre:
                             pre.add(norm(e.kid(0))[2])
+                        elif norm(e.kid(1))[0] == "&" and len(norm(e.kid(0))) > 2:
+                            # the address of a slot inside a long-lived table (r = &lookup(T, i)->member): what the slot holds
+                            # existed before the call
+                            pre.add(norm(e.kid(0))[2])
                 if e.cls == "DeclStmt":
                     for d in e.decls or []:
                         if d.get("init"):
@@ -91,6 +95,21 @@ def destroy_then_fail_rule(prog, rep, only_files=None):
                             r = root_var(norm(f.elem(d["init"])))
                             if r is not None and r[2] in pre and not (ie is not None and ie.cls == "CallExpr"):
                                 pre.add(d["id"])
+            # where an lvalue is acquired only on some paths (`*r = mkrec()` after an early exit that jumps to the shared clean-up), what
+            # it holds on the other paths is the caller's: a must-analysis of "assigned from a call in this invocation"
+            from ..dataflow import Solver as _Solver
+
+            def _tr(st, e):
+                if e.is_assign and e.op == "=":
+                    t = norm(e.kid(0))
+                    rs = e.kid(1).strip() if e.kid(1) is not None else None
+                    while rs is not None and rs.cls == "BinaryOperator" and rs.op == "=":
+                        rs = rs.kid(1).strip()
+                    if rs is not None and rs.cls == "CallExpr":
+                        return st | frozenset([t])
+                    return st - frozenset([t])
+                return st
+            _sv = _Solver(f, frozenset(), _tr, None, lambda a, b: a & b).run()
             for c in f.calls():
                 if not (c.callee and (own.GENERIC_RELEASERS.search(c.callee) or c.callee.endswith("_delete") or c.callee.endswith("_deletemin"))):
                     continue
@@ -98,6 +117,11 @@ def destroy_then_fail_rule(prog, rep, only_files=None):
                 args = [norm(a) for a in c.args if a is not None]
                 old = [a for a in args if a not in acquired and root_var(a) is not None and (root_var(a)[2] in pre or root_var(a)[2] not in locs)
                        and not any(a == q or any(t == q for t in subterms(a)) for q in acquired)]
+                if not old:
+                    must = _sv.state_before(c)
+                    if must is not None:
+                        old = [a for a in args if a in acquired and a not in must and a[0] in ("*", ".", "[]") and root_var(a) is not None
+                               and (root_var(a)[2] in pre or root_var(a)[2] not in locs)]
                 reach = f.reach_from(c.block.id) | {c.block.id}
                 hit = [r for r in fails if r.block.id in reach]
                 if old and hit:
